@@ -15,18 +15,18 @@
 //	    object owner match/mismatch (PUT) x object location
 //	P2  every 1-record table (2 actions x op match x 7 targets x 5 filters) stored or carried by a valid bearer token
 //	    x op x role x B bit x object attribute x location
-//	P3  every 2-record table over a reduced record space (80 records -> 6400 tables) x op x role x attribute x
-//	    location x {stored, bearer}
+//	P3  every 2-record table (quick: over a reduced record space, 80 records -> 6400 tables, 4 operations, stored only;
+//	    thorough: all 140 records -> 19600 tables, all operations, stored and bearer) x op x role x attribute x location
 package main
 
 import (
 	"context"
-	"flag"
-	"os"
-	"runtime/pprof"
 	"errors"
+	"flag"
 	"fmt"
+	"os"
 	"runtime"
+	"runtime/pprof"
 	"strings"
 	"sync"
 	"sync/atomic"
@@ -783,6 +783,9 @@ func generate(quick bool, emit func(tcase)) {
 	// ---- P3: every 2-record table over the reduced record space
 	recs2 := records(targets4)
 	ops3 := allOps
+	if !quick {
+		recs2 = recs1 // thorough: the full record space (140 records -> 19600 tables)
+	}
 	if quick {
 		ops3 = []string{"GET", "HEAD", "PUT", "DELETE"}
 	}
